@@ -207,11 +207,12 @@ func checkC04(p *Prog, r *Report) {
 	}
 
 	// ---- NO-UNLINK-BEFORE-REPLACE ----
-	r.Rule("C04/NO-UNLINK-BEFORE-REPLACE", "outside the --delete walk the receiver unlinks a destination path only at the two type-change sites (a non-directory in the way of a directory; a non-regular entry in the way of a regular file); in particular never before a symlink or file is replaced, which must happen by atomic rename alone", 2)
+	r.Rule("C04/NO-UNLINK-BEFORE-REPLACE", "outside the --delete walk the receiver unlinks a destination path only where rename(2) cannot replace it: a non-directory in the way of a directory, or a directory in the way of a regular file; never before a file, symlink or special file is replaced by a file or symlink, which must happen by atomic rename alone", 2)
 	modeFld := p.Field(pkgReceiver, "File", "Mode")
 	// the two halves of the type-change condition may sit in different functions
 	// (helper extraction): lift each through the call chains separately
-	entryTypeFact := func(in ssa.Instruction) bool { // list entry is a directory / a regular file
+	// kind of the list entry established at `in`: 'd' directory, 'r' regular file, 0 unknown
+	entryKind := func(in ssa.Instruction) byte {
 		for _, f := range FactsAt(in) {
 			switch x := f.Cond.(type) {
 			case *ssa.BinOp:
@@ -219,7 +220,7 @@ func checkC04(p *Prog, r *Report) {
 					if and, ok := x.X.(*ssa.BinOp); ok && and.Op == token.AND && modeFld != nil {
 						if base, fld := loadedField(and.X); fld == modeFld && base != nil {
 							if k, isK := constInt(x.Y); isK && k == 0o040000 {
-								return true
+								return 'd'
 							}
 						}
 					}
@@ -228,30 +229,47 @@ func checkC04(p *Prog, r *Report) {
 				if calleeName(x) == "(io/fs.FileMode).IsRegular" && f.Val {
 					if inner, ok := x.Common().Args[0].(*ssa.Call); ok {
 						if sc := inner.Common().StaticCallee(); sc != nil && sc.Name() == "FileMode" {
-							return true
+							return 'r'
 						}
 					}
 				}
 			}
 		}
-		return false
+		return 0
 	}
-	destWrongType := func(in ssa.Instruction) bool { // what exists at the destination is of another type
+	// what is known at `in` about the existing destination object being a directory: 't', 'f', 0 unknown
+	destIsDir := func(in ssa.Instruction) byte {
 		for _, f := range FactsAt(in) {
 			x, ok := f.Cond.(*ssa.Call)
-			if !ok || f.Val {
+			if !ok {
 				continue
 			}
-			if calleeName(x) == "(io/fs.FileMode).IsRegular" {
+			if x.Common().IsInvoke() && x.Common().Method.Name() == "IsDir" {
+				if f.Val {
+					return 't'
+				}
+				return 'f'
+			}
+			if calleeName(x) == "(io/fs.FileMode).IsDir" {
 				if inner, ok := x.Common().Args[0].(*ssa.Call); ok && inner.Common().IsInvoke() && inner.Common().Method.Name() == "Mode" {
-					return true
+					if f.Val {
+						return 't'
+					}
+					return 'f'
 				}
 			}
-			if x.Common().IsInvoke() && x.Common().Method.Name() == "IsDir" {
-				return true
-			}
 		}
-		return false
+		return 0
+	}
+	// rename(2) replaces any non-directory by a non-directory atomically; only a
+	// change between directory and non-directory needs the path emptied first
+	entryDirFact := func(in ssa.Instruction) bool { return entryKind(in) == 'd' }
+	entryRegFact := func(in ssa.Instruction) bool { return entryKind(in) == 'r' }
+	destNotDirFact := func(in ssa.Instruction) bool { return destIsDir(in) == 'f' }
+	destDirFact := func(in ssa.Instruction) bool { return destIsDir(in) == 't' }
+	bothFact := func(in ssa.Instruction) bool {
+		k, d := entryKind(in), destIsDir(in)
+		return (k == 'd' && d == 'f') || (k == 'r' && d == 't')
 	}
 	isUnlink := func(c ssa.CallInstruction) (string, bool) {
 		if _, inWalk := walkContext(g, c.Parent(), 0); inWalk {
@@ -264,20 +282,32 @@ func checkC04(p *Prog, r *Report) {
 		return "", false
 	}
 	scopeR := inPkg(pkgReceiver)
-	unl, needA := g.Lift(GuardSpec{InScope: scopeR, IsSink: isUnlink, Guarded: entryTypeFact}, recvFuncs)
-	_, needB := g.Lift(GuardSpec{InScope: scopeR, IsSink: isUnlink, Guarded: destWrongType}, recvFuncs)
+	unl, needBoth := g.Lift(GuardSpec{InScope: scopeR, IsSink: isUnlink, Guarded: bothFact}, recvFuncs)
+	// the two halves of the condition may sit in different functions (helper
+	// extraction): lift each through the call chains separately as well
+	_, needED := g.Lift(GuardSpec{InScope: scopeR, IsSink: isUnlink, Guarded: entryDirFact}, recvFuncs)
+	_, needER := g.Lift(GuardSpec{InScope: scopeR, IsSink: isUnlink, Guarded: entryRegFact}, recvFuncs)
+	_, needDN := g.Lift(GuardSpec{InScope: scopeR, IsSink: isUnlink, Guarded: destNotDirFact}, recvFuncs)
+	_, needDD := g.Lift(GuardSpec{InScope: scopeR, IsSink: isUnlink, Guarded: destDirFact}, recvFuncs)
 	ents := entriesOf(g, recvFuncs, scopeR)
 	for _, u := range unl {
-		bad := ""
-		for _, e := range ents {
-			if ch, ok := needA[e][u.Instr]; ok && bad == "" {
-				bad = "no entry-type test (directory / regular file) on the chain " + strings.Join(ch, " → ")
+		missing := func(need map[*ssa.Function]map[ssa.CallInstruction][]string) string {
+			for _, e := range ents {
+				if ch, ok := need[e][u.Instr]; ok {
+					return strings.Join(ch, " → ")
+				}
 			}
-			if ch, ok := needB[e][u.Instr]; ok && bad == "" {
-				bad = "no test that the existing destination object is of the wrong type on the chain " + strings.Join(ch, " → ")
+			return ""
+		}
+		bad := ""
+		if ch := missing(needBoth); ch != "" {
+			dirSite := missing(needED) == "" && missing(needDN) == ""
+			regSite := missing(needER) == "" && missing(needDD) == ""
+			if !dirSite && !regSite {
+				bad = "not established on the chain " + ch + ": (the list entry is a directory and the existing object is not) or (the list entry is a regular file and the existing object is a directory)"
 			}
 		}
-		r.Cond(bad == "", "C04/NO-UNLINK-BEFORE-REPLACE", funcKey(u.Fn)+" → "+u.Label, p.Pos(instrPos(u.Instr)), "a destination path is unlinked outside the two type-change sites: the path is absent until (and unless) its replacement succeeds; "+bad)
+		r.Cond(bad == "", "C04/NO-UNLINK-BEFORE-REPLACE", funcKey(u.Fn)+" → "+u.Label, p.Pos(instrPos(u.Instr)), "a destination path is unlinked although its replacement could be renamed over it: the path is absent until (and unless) the replacement succeeds; "+bad)
 	}
 
 	// ---- FIRST-ERROR-ABORTS ----
@@ -329,7 +359,7 @@ func checkC04(p *Prog, r *Report) {
 		}
 	}
 	r.Trust("rename(2) atomicity inside renameio.CloseAtomicallyReplace and renameio.SymlinkRoot; os.Root.MkdirAll/mknodat create empty objects (absent→present, never partial)")
-	r.Assume("the window in which a non-regular object is unlinked to make room for a regular file leaves the path absent, which the statement allows (\"or is still absent\")")
+	r.Assume("a change between directory and non-directory cannot be made atomic with rename(2): at those two sites the path is absent between the unlink and the creation of its replacement, which the rule accepts")
 	r.Uncovered("temp-file removal when the session returns while the receiver goroutine is still blocked on the connection (deferred Cleanup runs only when that goroutine unblocks); kernel/renameio behaviour")
 }
 
